@@ -13,9 +13,9 @@ mkdir -p /tmp/confirm.$$ && mv $DEMO /tmp/confirm.$$/ 2>/dev/null
 suite=$(timeout -k 10 1200 cargo test --workspace --no-fail-fast --offline 2>&1 | grep -E "^test result" | tr '\n' ';')
 mv /tmp/confirm.$$/demo_seeded.rs $DEMO 2>/dev/null
 with=$(timeout -k 10 900 cargo test --offline --test demo_seeded 2>&1 | grep -E "^test result" | tr '\n' ';')
-git stash -q -- src
+git apply -R /tmp/confirm.$$.diff        # (not git stash: the stash is shared between worktrees)
 without=$(timeout -k 10 900 cargo test --offline --test demo_seeded 2>&1 | grep -E "^test result" | tr '\n' ';')
-git stash pop -q
+git apply /tmp/confirm.$$.diff
 rm -rf /tmp/confirm.$$ /tmp/confirm.$$.diff
 python3 - "$suite" "$with" "$without" <<'PY'
 import sys, json
